@@ -126,8 +126,9 @@ func keyshareChallengeInput(P *Program, R *Report) {
 		return
 	}
 	a := ch.Call.Args
+	ctxD := desc(a[0])
 	R.decide(rule, kKSResponse+":roles", "createChallenge(Context, Nonce, contribs, IsSignatureSession) of the second message",
-		desc(a[0]) == ksReq+".Context" && desc(a[1]) == ksReq+".Nonce" && desc(a[3]) == ksReq+".IsSignatureSession", fmt.Sprintf("%s | %s | %s", desc(a[0]), desc(a[1]), desc(a[3])), P.Pos(ch.Pos()))
+		(ctxD == ksReq+".Context" || ctxD == "phi("+ksReq+".Context|global:gabi.bigOne)") && desc(a[1]) == ksReq+".Nonce" && desc(a[3]) == ksReq+".IsSignatureSession", fmt.Sprintf("%s | %s | %s", desc(a[0]), desc(a[1]), desc(a[3])), P.Pos(ch.Pos()))
 	// default context: stored only when nil, value the constant 1
 	okCtx := false
 	for _, s := range sinksOf(fn) {
@@ -150,6 +151,46 @@ func keyshareChallengeInput(P *Program, R *Report) {
 				}
 			}
 			okCtx = one && guarded
+		}
+	}
+	// or: the context handed to createChallenge is a local that is the request's context, replaced by the
+	// constant one on exactly the edge taken when that context is nil
+	if phi, isPhi := a[0].(*ssa.Phi); isPhi && !okCtx && len(phi.Edges) == 2 {
+		for k, e := range phi.Edges {
+			other := phi.Edges[1-k]
+			u, isLoad := e.(*ssa.UnOp)
+			if !isLoad || desc(other) != ksReq+".Context" {
+				continue
+			}
+			g, isG := u.X.(*ssa.Global)
+			if !isG {
+				continue
+			}
+			if c1, ok := P.globalBigConst(g); !ok || c1 != 1 {
+				continue
+			}
+			// the edge from Preds[k] is taken only when Context == nil, the other only when it is not
+			pred := phi.Block().Preds[k]
+			nilSide := false
+			for _, cnd := range append(controllingConds(pred), edgeCond(pred, phi.Block())...) {
+				cnd = normAtom(cnd)
+				if bo, ok := cnd.V.(*ssa.BinOp); ok && desc(bo.X) == ksReq+".Context" && isNilConst(bo.Y) {
+					if (bo.Op.String() == "==" && cnd.Want == True) || (bo.Op.String() == "!=" && cnd.Want == False) {
+						nilSide = true
+					}
+				}
+			}
+			otherPred := phi.Block().Preds[1-k]
+			nonNilSide := false
+			for _, cnd := range append(controllingConds(otherPred), edgeCond(otherPred, phi.Block())...) {
+				cnd = normAtom(cnd)
+				if bo, ok := cnd.V.(*ssa.BinOp); ok && desc(bo.X) == ksReq+".Context" && isNilConst(bo.Y) {
+					if (bo.Op.String() == "!=" && cnd.Want == True) || (bo.Op.String() == "==" && cnd.Want == False) {
+						nonNilSide = true
+					}
+				}
+			}
+			okCtx = nilSide && nonNilSide
 		}
 	}
 	R.decide(rule, kKSResponse+":default-context", "a missing context defaults to 1 (and only then)", okCtx, "", P.Pos(fn.Pos()))
@@ -568,4 +609,19 @@ func buildDistributedRule(P *Program, R *Report) {
 	}}}
 	m2 := fa2.inFn(fn, AcceptNilErr(1))
 	R.decide(rule, kBuildDist+":merged", "every proof with a ProofP is merged with it (and the builder's own public key)", m2.holds, m2.detail, P.Pos(fn.Pos()))
+}
+
+// edgeCond: the branch condition that holds on the edge from -> to, when from ends in an If.
+func edgeCond(from, to *ssa.BasicBlock) []Atom {
+	iff, ok := from.Instrs[len(from.Instrs)-1].(*ssa.If)
+	if !ok || from.Succs[0] == from.Succs[1] {
+		return nil
+	}
+	if from.Succs[0] == to {
+		return []Atom{{Fn: from.Parent(), V: iff.Cond, Want: True}}
+	}
+	if from.Succs[1] == to {
+		return []Atom{{Fn: from.Parent(), V: iff.Cond, Want: False}}
+	}
+	return nil
 }
